@@ -9,6 +9,8 @@ use self::reader::Read as _;
 use crate::symbol::Register;
 
 pub use self::reader::CommandReader;
+#[cfg(lace_verif)]
+pub use self::reader::VerifTerminal;
 
 #[derive(Debug)]
 #[cfg_attr(test, derive(PartialEq))]
@@ -118,6 +120,8 @@ impl<'a> Command<'a> {
     {
         loop {
             let line = source.read()?.trim();
+            #[cfg(lace_verif)]
+            crate::verif::command_line(line);
 
             // Necessary, since `Command::try_from` assumes non-empty line
             if line.is_empty() {
